@@ -83,6 +83,7 @@ type gctx struct {
 	inner     int  // nesting of inner generators
 	noReenter bool
 	allowBad  bool // a top-level yield* of a non-iterable may be generated
+	inFinally bool // inside a finally block: no yield* (recorded finding C09-N3: a failure raised while return() runs the block)
 	quiet     bool // nothing that can throw or suspend (finally block of try/catch/finally: recorded finding A)
 }
 
@@ -139,7 +140,7 @@ func (g *gen) yieldOperand(c gctx, d int) *Exp {
 }
 
 func (g *gen) starAllowed(c gctx) bool {
-	if c.async && c.inner == 0 {
+	if c.async && c.inner == 0 || c.inFinally {
 		return false
 	}
 	return c.inner < 2
@@ -198,12 +199,12 @@ func (g *gen) hand() *Hand {
 func (g *gen) src(c gctx, d int, star bool) *Src {
 	r := g.r
 	k := r.Pick(6, 3, 1)
-	if k == 2 && star && c.top && !c.async && !c.allowBad {
+	if k == 2 && (star && c.top && !c.async && !c.allowBad || c.inFinally) {
 		k = 1
 	}
 	switch k {
 	case 0:
-		ic := gctx{inner: c.inner + 1, noReenter: c.noReenter, async: c.async}
+		ic := gctx{inner: c.inner + 1, noReenter: c.noReenter, async: c.async, inFinally: c.inFinally}
 		if star {
 			ic.yieldInt = c.yieldInt
 			if c.top && !c.async {
@@ -221,7 +222,17 @@ func (g *gen) src(c gctx, d int, star bool) *Src {
 		} else {
 			g.tag("forof-hand")
 		}
-		return &Src{K: "hand", H: g.hand()}
+		h := g.hand()
+		if c.inFinally { // only well-behaved iterators inside finally blocks (C09-N4)
+			h.BadAt = -1
+			h.BadBeh = ""
+			for _, f := range []*string{&h.Thr, &h.Rtn} {
+				if *f == "T" || *f == "N" {
+					*f = "D"
+				}
+			}
+		}
+		return &Src{K: "hand", H: h}
 	default:
 		g.tag("not-iterable")
 		return &Src{K: "bad"}
@@ -319,11 +330,16 @@ func (g *gen) stmt(c gctx, d int) *Stmt {
 			return &Stmt{K: "trycatch", A: g.block(c, d-1, 1+r.Intn(3)), B: g.block(c, d-1, 1+r.Intn(2))}
 		case 1:
 			g.tag("try-finally")
-			return &Stmt{K: "tryfinally", A: g.block(c, d-1, 1+r.Intn(3)), B: g.block(c, d-1, 1+r.Intn(2))}
+			fc := c
+			fc.inFinally = true
+			fc.noReenter = true // recorded finding C09-N4 (host crash): a native call that throws inside a finally block run by return()
+			return &Stmt{K: "tryfinally", A: g.block(c, d-1, 1+r.Intn(3)), B: g.block(fc, d-1, 1+r.Intn(2))}
 		default:
 			g.tag("try-catch-finally")
 			qc := c
-			qc.quiet = true
+			qc.inFinally = true
+			qc.noReenter = true
+			qc.quiet = avoidA // finding C08-N1 (enterFinally keeps catchPos): avoided only on request during development
 			return &Stmt{K: "trycf", A: g.block(c, d-1, 1+r.Intn(3)), B: g.block(c, d-1, 1+r.Intn(2)), C: g.block(qc, d-1, 1+r.Intn(2))}
 		}
 	case 8:
@@ -332,6 +348,9 @@ func (g *gen) stmt(c gctx, d int) *Stmt {
 		}
 		return &Stmt{K: "return", E: g.anyExp(c, 2)}
 	case 9:
+		if c.inFinally {
+			return &Stmt{K: "loglocals"} // finding C09-N4: exceptions raised inside a finally block that return() is running
+		}
 		return &Stmt{K: "throw", E: &Exp{K: "add", A: &Exp{K: "const", Z: 500}, B: g.intExp(c, 1)}}
 	case 10:
 		if c.loop > 0 {
@@ -408,7 +427,7 @@ func genCase(r *vh.Rng) (Case, []string) {
 			c.Ops = append(c.Ops, Cmd{K: k, V: base + int64(i), Shape: r.Intn(6)})
 		}
 		// recorded finding D: throw() into a finally block that was entered by return(); replayed from the corpus
-		if suspendsInFinally(c.Body, false) {
+		if anySuspendInFinally(c.Body) {
 			seenReturn := false
 			for i := range c.Ops {
 				if c.Ops[i].K == "return" {
@@ -431,6 +450,51 @@ func genCase(r *vh.Rng) (Case, []string) {
 	}
 	sort.Strings(tags)
 	return c, tags
+}
+
+// does any finally block of the body or of an inner generator defined in it contain a suspension point?
+func anySuspendInFinally(body *Stmt) bool {
+	found := false
+	var ws func(s *Stmt)
+	var we func(e *Exp)
+	wsrc := func(x *Src) {
+		if x != nil {
+			we(x.Arg)
+			ws(x.Body)
+		}
+	}
+	we = func(e *Exp) {
+		if e == nil {
+			return
+		}
+		we(e.A)
+		we(e.B)
+		wsrc(e.S)
+	}
+	ws = func(s *Stmt) {
+		if s == nil {
+			return
+		}
+		var fin *Stmt
+		if s.K == "tryfinally" {
+			fin = s.B
+		} else if s.K == "trycf" {
+			fin = s.C
+		}
+		if fin != nil {
+			txt := string(vh.MustJSON(fin))
+			if strings.Contains(txt, `"k":"yield"`) || strings.Contains(txt, `"k":"ystar"`) {
+				found = true
+			}
+		}
+		we(s.E)
+		ws(s.A)
+		ws(s.B)
+		ws(s.C)
+		wsrc(s.S)
+	}
+	ws(body)
+	return found
 }
 
 // does the body (outside inner generator definitions) contain a suspension point inside a finally block?
@@ -907,6 +971,7 @@ func coqVals(l []interface{}) string {
 const failTerm = "CFail"
 
 var useNode bool
+var avoidA bool
 
 func runNode(script string) (string, error) {
 	cmd := exec.Command("node", "-e", script)
@@ -1059,6 +1124,9 @@ func main() {
 	m := vh.ParseArgs()
 	if m.Args["node"] == "1" || os.Getenv("C09_NODE") == "1" {
 		useNode = true
+	}
+	if m.Args["avoidA"] == "1" || os.Getenv("C09_AVOID_A") == "1" {
+		avoidA = true
 	}
 	if m.Cmd == "js" { // development aid: print the script of the cases of a file
 		for _, raw := range vh.ReadCases(m.In) {
